@@ -187,6 +187,8 @@ impl<'tera> VirtualMachine<'tera> {
         }
 
         while let Some((instr, _)) = state.chunk.expect("To have a chunk").get(ip) {
+            #[cfg(tera_verif)]
+            crate::verif::step();
             // Current instruction index as span reference
             let current_ip = ip as u32;
 
@@ -1020,6 +1022,12 @@ impl<'tera> VirtualMachine<'tera> {
         } else {
             self.interpret(&mut state, &mut output)?;
         }
+        #[cfg(tera_verif)]
+        crate::verif::end_of_render(
+            state.stack.len(),
+            state.for_loops.len(),
+            state.capture_buffers.len(),
+        );
         Ok(())
     }
 }
